@@ -8,13 +8,14 @@ enumeration of every operation sequence of a depth per family as a PROGRAM (bind
 programs on the real code; T_KeyStore / T_Stats judge every recorded event (binding T; the text grammar, ratios and
 averages are executable definitions evaluated on the logged arguments, binding E).  Seeded random programs follow.
 """
-import glob, json, os
+import glob, json, os, threading
 from concurrent.futures import ThreadPoolExecutor
 from . import lib
 
 PROP = "X11"
 DRV = "drv_bookkeeping"
 KS_KINDS = ("ks", "kr")
+LOCK = threading.Lock()      # the two monitors' pipelines run side by side; ctx / totals are shared
 ALL_KS = ["FX11d", "FX11e", "FX11f"]
 ALL_ST = ["FX11a", "FX11b", "FX11c", "FX11g", "FX11h", "FX11i"]
 
@@ -57,9 +58,9 @@ def plan(quick):
         return dict(mod="MC_KeyStore", which="ks", fam=fam, D=D, init=init, via=via)
 
     def st(fam, D, wide=False):
-        return dict(mod="MC_Stats", which="st", fam=fam, D=D, wide=wide)
+        return dict(mod="MC_Stats", which="st", fam=fam, D=D, wide=wide, workers=2 if fam == "met" else 1)
     if quick:
-        return [ks("api", 3), ks("api", 3, "new"), ks("api", 3, via="custom"), ks("api", 2, via="trait"), ks("api", 2, via="unified"),
+        return [ks("api", 3), ks("api", 2, "new"), ks("api", 3, via="custom"), ks("api", 2, via="trait"), ks("api", 2, via="unified"),
                 ks("api", 2, "new", "nested"), ks("csv", 3), ks("txt", 3), ks("kr", 3),
                 st("met", 3), st("merge", 2), st("opm", 3), st("mls", 3), st("sm", 3), st("pm", 3), st("exp", 3)]
     return [ks("api", 4), ks("api", 4, "new"), ks("api", 4, via="custom"), ks("api", 3, via="trait"), ks("api", 3, via="unified"),
@@ -118,22 +119,23 @@ def split_by_monitor(progs_path, ks_path, st_path):
     return nk, ns
 
 
-def run_and_judge(ctx, which, progs, n, source, kd, totals, target_chunks=8):
-    trace = ctx.path(f"trace_{which}_{totals['runs']}.ndjson")
-    totals["runs"] += 1
+def run_and_judge(ctx, which, progs, n, source, kd, totals, target_chunks=8, parallel=None, tag="mc"):
+    trace = ctx.path(f"trace_{which}_{tag}.ndjson")
     d = lib.run_sharded(ctx, DRV, progs, trace, shards=min(lib.NCPU, 8))
     ctx.stage("run", source=source, monitor=module_t(which), programs=d.get("programs"), events=d.get("events"), hangs=d.get("hangs"), wall_s=d["wall_s"])
     if d.get("programs") != n:
         raise lib.ToolError(f"driver executed {d.get('programs')} of {n} programs")
     ev = d.get("events", 0)
-    v = lib.judge(ctx, module_t(which), t_cfg(ctx, which, kd), trace, max_events=max(1500, ev // target_chunks + 1), timeout=1500)
+    v = lib.judge(ctx, module_t(which), t_cfg(ctx, which, kd, name=f"t_{which}_{tag}.cfg"), trace,
+                  max_events=max(1500, ev // target_chunks + 1), timeout=1500, parallel=parallel)
     ndev = {}
     for _, fid in v["deviations"]:
         ndev[fid] = ndev.get(fid, 0) + 1
     ctx.stage("judge", source=source, monitor=module_t(which), events=v["events"], violations=len(v["violations"]), deviations=ndev,
               wall_s=v["wall_s"], chunks=v["chunks"])
-    totals["events"] += v["events"]
-    lib.classify_trace(ctx, v, trace, source, program_of=program_of)
+    with LOCK:
+        totals["events"] += v["events"]
+        lib.classify_trace(ctx, v, trace, source, program_of=program_of)
     return trace, v
 
 
@@ -171,7 +173,7 @@ def selftest(ctx, traces, kds):
             picked += lines[starts[r]:starts[r + 1]]
         lines = picked
         kd = kds[which]
-        mod, cfg = module_t(which), t_cfg(ctx, which, kd)
+        mod, cfg = module_t(which), t_cfg(ctx, which, kd, name=f"t_{which}_self.cfg")
         cfg0 = t_cfg(ctx, which, [], name=f"t_{which}_nokd.cfg")
         p0 = ctx.path(f"selftest_{which}_0.ndjson"); open(p0, "w").write("\n".join(lines) + "\n")
         # (a) corrupt fields
@@ -230,6 +232,38 @@ def selftest(ctx, traces, kds):
         raise lib.ToolError(f"binding self-test failed: {bad}")
 
 
+# --------------------------------------------------------------------------- witnesses
+def witnesses(ctx, kds):
+    """Replay the hand-minimised witness of every finding: a listed finding whose witness no longer deviates is reported
+    (informative: the fix has landed but the finding is still listed), a witness that is a violation is one."""
+    progs = {"ks": [], "st": []}
+    for p in sorted(glob.glob(os.path.join(lib.ROOT, "replay", "X11_FX11*_witness.json"))):
+        o = json.load(open(p))
+        progs["ks" if o["program"]["kind"] in KS_KINDS else "st"].append((o["finding"], o["program"], p))
+    seen = set()
+    for which, items in progs.items():
+        if not items:
+            continue
+        pp = ctx.path(f"witness_{which}.ndjson")
+        open(pp, "w").write("".join(json.dumps(x[1]) + "\n" for x in items))
+        trace = ctx.path(f"witness_trace_{which}.ndjson")
+        lib.run_driver(DRV, ["--programs", pp, "--out", trace])
+        v = lib.tlc_trace(ctx, module_t(which), t_cfg(ctx, which, kds[which], name=f"t_{which}_wit.cfg"), trace)
+        seen |= {fid for _, fid in v["deviations"]}
+        if v["violations"]:
+            lines = lib.read_lines(trace)
+            nth = sum(1 for l in lines[:v["violations"][0]] if lib.is_new(l)) - 1
+            with LOCK:
+                lib.report_violation(ctx, f"witness {items[nth][2]}: not explained by the specification",
+                                     {"property": PROP, "source": "witness", "program": items[nth][1]})
+    listed = set(kds["ks"]) | set(kds["st"])
+    ctx.cov["witnesses"] = {"replayed": sum(len(v) for v in progs.values()), "findings_reproduced": sorted(seen & listed)}
+    gone = sorted(listed - seen)
+    if gone:
+        ctx.cov["known_findings_not_reproduced_by_witness"] = gone
+        lib.log(f"[{PROP}] note: listed findings whose witness no longer deviates: {gone}")
+
+
 # --------------------------------------------------------------------------- replay
 def replay(ctx, kd):
     obj = json.load(open(ctx.replay))
@@ -259,7 +293,7 @@ def run(ctx):
     lib.build([DRV])
     if ctx.replay:
         return replay(ctx, kd)
-    totals = {"events": 0, "runs": 0, "ops": {}}
+    totals = {"events": 0, "ops": {}}
     pl = plan(ctx.quick)
     only = [x for x in os.environ.get("VERIF_X11_ONLY", "").split(",") if x]
     if only:
@@ -287,14 +321,19 @@ def run(ctx):
     total_programs = 0
     distinct = 0
     traces = {}
-    for which in ("ks", "st"):
-        if counts[which] == 0:
-            continue
+    kds = {"ks": kd_ks, "st": kd_st}
+    half = max(1, lib.NCPU // 2)
+
+    def main_one(which):
+        return run_and_judge(ctx, which, files[which], counts[which], f"{'MC_KeyStore' if which == 'ks' else 'MC_Stats'} (all families)",
+                             kds[which], totals, parallel=half)
+    todo = [w for w in ("ks", "st") if counts[w]]
+    with ThreadPoolExecutor(max_workers=2) as ex:
+        done = list(ex.map(main_one, todo))
+    for which, (trace, _) in zip(todo, done):
         _, dn = lib.count_distinct(files[which])
         distinct += dn
         total_programs += counts[which]
-        trace, _ = run_and_judge(ctx, which, files[which], counts[which], f"{'MC_KeyStore' if which == 'ks' else 'MC_Stats'} (all families)",
-                                 kd_ks if which == "ks" else kd_st, totals)
         traces[which] = trace
         count_ops(trace, totals)
         ls = lib.read_lines(trace)
@@ -311,11 +350,7 @@ def run(ctx):
         if ctx.violations:
             return lib.finish(ctx, "model_checking", rule="partial run (VERIF_X11_ONLY)")
         raise lib.ToolError(f"partial run over {only}: no violation in {total_programs} programs (inconclusive by construction)")
-    if ctx.violations:
-        ctx.cov["binding_selftest"] = {"skipped": "violations were reported"}
-    else:
-        selftest(ctx, traces, {"ks": kd_ks, "st": kd_st})
-    # seeded random programs of all kinds
+    # seeded random programs of all kinds; self-tests and witnesses run beside them
     nrand, rlen = (500, 24) if ctx.quick else (6000, 40)
     dump = ctx.path("prog_random.ndjson")
     lib.run_driver(DRV, ["--random", nrand, "--len", rlen, "--out", ctx.path("discard.ndjson"), "--dump-programs", dump, "--dump-only"],
@@ -325,10 +360,28 @@ def run(ctx):
     _, dn = lib.count_distinct(dump)
     distinct += dn
     total_programs += nrand
-    for which, p, n in (("ks", rk, nk), ("st", rs, ns)):
-        if n:
-            trace, _ = run_and_judge(ctx, which, p, n, f"random seed={ctx.seed}", kd_ks if which == "ks" else kd_st, totals, target_chunks=4)
-            count_ops(trace, totals)
+    had_violations = bool(ctx.violations)
+
+    def random_one(a):
+        which, p, n = a
+        if not n:
+            return None
+        trace, _ = run_and_judge(ctx, which, p, n, f"random seed={ctx.seed}", kds[which], totals, target_chunks=4, parallel=2, tag="random")
+        return trace
+
+    def side():
+        if had_violations:
+            ctx.cov["binding_selftest"] = {"skipped": "violations were reported"}
+        else:
+            selftest(ctx, traces, kds)
+        witnesses(ctx, kds)
+    with ThreadPoolExecutor(max_workers=3) as ex:
+        fs = ex.submit(side)
+        rts = list(ex.map(random_one, [("ks", rk, nk), ("st", rs, ns)]))
+        fs.result()
+    for tr in rts:
+        if tr:
+            count_ops(tr, totals)
     if not ctx.violations:
         missing = [k for k in NEED if totals["ops"].get(k, 0) == 0]
         ctx.cov["actions_never_taken"] = missing
